@@ -35,7 +35,11 @@ Counter(h, k, hi, lo) ==
     IF k > Len(h) THEN {}
     ELSE LET c == h[k] IN
          CASE c.kind = "S" -> (IF c.ok THEN {} ELSE {"C09.UnexpectedFailure"}) \cup Counter(h, k + 1, 0, 0)
-           [] c.kind = "R" -> (IF ~c.ok /\ c.rejected THEN {} ELSE {"C09.RejectedKind"}) \cup Family(c) \cup Counter(h, k + 1, hi + 1, lo)
+           \* the simulated inverter refuses with exception code 2: the caller of the inverter API must see
+           \* RequestRejectedException carrying that reason (C08 speaks about what surfaces, not only about the protocol layer)
+           [] c.kind = "R" -> (IF ~c.ok /\ c.rejected THEN {} ELSE {"C09.RejectedKind", "C08.SurfacesRejected"})
+                              \cup (IF ~c.ok /\ c.rejected /\ c.msg # "ILLEGAL DATA ADDRESS" THEN {"C08.SurfacesRejected"} ELSE {})
+                              \cup Family(c) \cup Counter(h, k + 1, hi + 1, lo)
            [] c.kind \in {"F", "E"} -> (IF ~c.ok /\ c.failed THEN {} ELSE {"C09.FailedKind"}) \cup Family(c)
                               \cup (IF c.failed /\ (c.cfc < lo + 1 \/ c.cfc > hi + 1) THEN {"C09.Counter"} ELSE {})
                               \cup Counter(h, k + 1, hi + 1, lo + 1)
